@@ -101,6 +101,12 @@ chk("C06", "enum",
     "Alphabet finite; valid UTF-8 only.",
     "DESIGN.md §3 C06")
 
+chk("C02", "enum",
+    "bounded-exhaustive enumeration of values and hostile strings at every string-bearing position on the implementation; oracle = independent reader (encoding/json token stream) walked in parallel with the Go value by reflection",
+    "Every MarshalJSON method and the package function are executed on the structural universe and on every string-bearing position x 19 hostile strings (alone, prefixed, in ordered pairs) at three nesting positions; the output must be one valid JSON value without duplicate members, with only declared terms, every populated field under its own term in the prescribed JSON kind, and every string decoding to the bytes held.",
+    "Reading D2; hostile alphabet finite; JSON-LD keywords not judged.",
+    "DESIGN.md §3 C02")
+
 manifest = {
     "version": 1,
     "setup_cmd": "./setup.sh",
